@@ -27,26 +27,63 @@ BOUNDS = {"rows": "BRows", "cols": "BCols", "readout_times": "BTimes"}
 OPS = {ast.Eq: "CEq", ast.NotEq: "CNe", ast.LtE: "CLe", ast.Lt: "CLt", ast.GtE: "CGe", ast.Gt: "CGt"}
 
 
-def _expr(node, sides: dict) -> str:
-    """sides: name of the variable -> 'Tgt' | 'Out'."""
+def _range_dim(node, sides):
+    """<range>.<dim> -> (side, dim) or None"""
+    if (isinstance(node, ast.Attribute) and node.attr in DIMS and isinstance(node.value, ast.Name)
+            and node.value.id in sides):
+        return sides[node.value.id], DIMS[node.attr]
+    return None
+
+
+def _helper_call(node, name: str, sides):
+    """`name(<range>.<dim>, <bound>)` -> (side, dim, bound) or None"""
+    if (isinstance(node, ast.Call) and isinstance(node.func, ast.Name) and node.func.id == name and len(node.args) == 2
+            and not node.keywords and isinstance(node.args[1], ast.Name) and node.args[1].id in BOUNDS):
+        rd = _range_dim(node.args[0], sides)
+        if rd is not None:
+            return rd[0], rd[1], BOUNDS[node.args[1].id]
+    return None
+
+
+def _expr(node, sides: dict, env: dict | None = None, helpers: frozenset = frozenset()) -> str:
+    """sides: name of the variable -> 'Tgt' | 'Out';  env: local name -> Gallina expr (results of `_bounds`)."""
+    env = env or {}
     if isinstance(node, ast.BinOp) and isinstance(node.op, ast.Sub):
-        return f"(ESub {_expr(node.left, sides)} {_expr(node.right, sides)})"
+        return f"(ESub {_expr(node.left, sides, env, helpers)} {_expr(node.right, sides, env, helpers)})"
+    if isinstance(node, ast.Name) and node.id in env:
+        return env[node.id]
     if isinstance(node, ast.Name) and node.id in BOUNDS:
         return f"(EBound {BOUNDS[node.id]})"
-    if (isinstance(node, ast.Attribute) and node.attr in ("start", "stop") and isinstance(node.value, ast.Attribute)
-            and node.value.attr in DIMS and isinstance(node.value.value, ast.Name) and node.value.value.id in sides):
-        ctor = "EStart" if node.attr == "start" else "EStop"
-        return f"({ctor} {sides[node.value.value.id]} {DIMS[node.value.attr]})"
+    if isinstance(node, ast.Constant) and isinstance(node.value, int) and not isinstance(node.value, bool):
+        return f"(EConst {node.value})" if node.value >= 0 else f"(EConst ({node.value}))"
+    if (isinstance(node, ast.Attribute) and node.attr in ("start", "stop")):
+        rd = _range_dim(node.value, sides)
+        if rd is not None:
+            return f"({'EStart' if node.attr == 'start' else 'EStop'} {rd[0]} {rd[1]})"
+    if "_length" in helpers:
+        h = _helper_call(node, "_length", sides)
+        if h is not None:
+            return f"(ESub (ERStop {h[0]} {h[1]} {h[2]}) (ERStart {h[0]} {h[1]} {h[2]}))"
+    if "_bounds" in helpers and isinstance(node, ast.Subscript) and isinstance(node.slice, ast.Constant) \
+            and node.slice.value in (0, 1):
+        h = _helper_call(node.value, "_bounds", sides)
+        if h is not None:
+            return f"({'ERStart' if node.slice.value == 0 else 'ERStop'} {h[0]} {h[1]} {h[2]})"
     fail(node, "unsupported expression in a range comparison")
 
 
-def _compare(node, sides) -> tuple[bool, str, str, str]:
+def _compare(node, sides, env=None, helpers=frozenset()) -> list[tuple[bool, str, str, str]]:
+    """one guard per comparison: `not a <= b <= c` raises as soon as one link fails, in order"""
     neg = False
     if isinstance(node, ast.UnaryOp) and isinstance(node.op, ast.Not):
         neg, node = True, node.operand
-    if not (isinstance(node, ast.Compare) and len(node.ops) == 1 and type(node.ops[0]) in OPS):
-        fail(node, "expected a single comparison")
-    return neg, _expr(node.left, sides), OPS[type(node.ops[0])], _expr(node.comparators[0], sides)
+    if not (isinstance(node, ast.Compare) and all(type(o) in OPS for o in node.ops)):
+        fail(node, "expected a comparison")
+    if len(node.ops) > 1 and not neg:
+        fail(node, "a chained comparison is only supported under `not`")
+    terms = [node.left, *node.comparators]
+    return [(neg, _expr(x, sides, env, helpers), OPS[type(op)], _expr(y, sides, env, helpers))
+            for x, op, y in zip(terms, node.ops, terms[1:])]
 
 
 def _is_isinstance(node, var: str, cls: str) -> bool:
@@ -63,9 +100,75 @@ def _raises_value_error(stmts) -> bool:
     return isinstance(name, ast.Name) and name.id == "ValueError"
 
 
-def _guards(fn: ast.FunctionDef, sides: dict, allow_pre: bool) -> list[str]:
+def _cond_default(node, attr: str, default_src: str, var: str) -> bool:
+    """`<default> if <var>.<attr> is None else <var>.<attr>` (or the mirrored `is not None` form)"""
+    if not isinstance(node, ast.IfExp):
+        return False
+    t = node.test
+    if not (isinstance(t, ast.Compare) and len(t.ops) == 1 and ast.unparse(t.left) == f"{var}.{attr}"
+            and isinstance(t.comparators[0], ast.Constant) and t.comparators[0].value is None):
+        return False
+    dflt, val = (node.body, node.orelse) if isinstance(t.ops[0], ast.Is) else (node.orelse, node.body)
+    if not isinstance(t.ops[0], (ast.Is, ast.IsNot)):
+        return False
+    return ast.unparse(dflt) == default_src and ast.unparse(val) == f"{var}.{attr}"
+
+
+def _helpers(tree) -> frozenset:
+    """Which of the helpers `_bounds(data, size) -> (start or 0, stop or size)` and
+    `_length(data, size) -> stop - start` exist with exactly that meaning."""
+    found = set()
+    fns = {n.name: n for n in tree.body if isinstance(n, ast.FunctionDef)}
+    fb = fns.get("_bounds")
+    if fb is not None:
+        if [a.arg for a in fb.args.args] != ["data", "size"] or fb.args.defaults or fb.args.kwonlyargs:
+            fail(fb, "_bounds signature")
+        vals = {}
+        body = body_no_doc(fb)
+        for st in body[:-1]:
+            if isinstance(st, ast.AnnAssign) and isinstance(st.target, ast.Name) and st.value is not None:
+                vals[st.target.id] = st.value
+            elif isinstance(st, ast.Assign) and len(st.targets) == 1 and isinstance(st.targets[0], ast.Name):
+                vals[st.targets[0].id] = st.value
+            else:
+                fail(st, "_bounds: unsupported statement")
+        ret = body[-1] if body else None
+        if not (isinstance(ret, ast.Return) and isinstance(ret.value, ast.Tuple) and len(ret.value.elts) == 2):
+            fail(fb, "_bounds must return (start, stop)")
+        r0, r1 = (vals.get(e.id, e) if isinstance(e, ast.Name) else e for e in ret.value.elts)
+        if not (_cond_default(r0, "start", "0", "data") and _cond_default(r1, "stop", "size", "data")):
+            fail(fb, "_bounds must return (0 if data.start is None else data.start, size if data.stop is None else data.stop)")
+        found.add("_bounds")
+    fl = fns.get("_length")
+    if fl is not None:
+        if "_bounds" not in found or [a.arg for a in fl.args.args] != ["data", "size"] or fl.args.defaults:
+            fail(fl, "_length signature")
+        body = body_no_doc(fl)
+        ok = (len(body) == 2 and isinstance(body[0], ast.Assign) and ast.unparse(body[0]) == "start, stop = _bounds(data, size)"
+              and isinstance(body[1], ast.Return) and body[1].value is not None and ast.unparse(body[1].value) == "stop - start")
+        ok = ok or (len(body) == 1 and isinstance(body[0], ast.Return) and body[0].value is not None
+                    and ast.unparse(body[0].value) == "_bounds(data, size)[1] - _bounds(data, size)[0]")
+        if not ok:
+            fail(fl, "_length must return stop - start of _bounds(data, size)")
+        found.add("_length")
+    return frozenset(found)
+
+
+def _guards(fn: ast.FunctionDef, sides: dict, allow_pre: bool, helpers: frozenset = frozenset()) -> list[str]:
     out = []
+    env: dict = {}
     for st in body_no_doc(fn):
+        # <a>, <b> = _bounds(<range>.<dim>, <bound>)
+        if ("_bounds" in helpers and isinstance(st, ast.Assign) and len(st.targets) == 1
+                and isinstance(st.targets[0], ast.Tuple) and len(st.targets[0].elts) == 2
+                and all(isinstance(e, ast.Name) for e in st.targets[0].elts)):
+            h = _helper_call(st.value, "_bounds", sides)
+            a, b = (e.id for e in st.targets[0].elts)
+            if h is None or a in env or b in env or a in BOUNDS or b in BOUNDS or a in sides or b in sides:
+                fail(st, f"{fn.name}: unsupported assignment")
+            env[a] = f"(ERStart {h[0]} {h[1]} {h[2]})"
+            env[b] = f"(ERStop {h[0]} {h[1]} {h[2]})"
+            continue
         if not (isinstance(st, ast.If) and not st.orelse and _raises_value_error(st.body)):
             fail(st, f"{fn.name}: every statement must be `if <cond>: raise ValueError(...)`")
         t = st.test
@@ -81,8 +184,8 @@ def _guards(fn: ast.FunctionDef, sides: dict, allow_pre: bool) -> list[str]:
                     and _is_isinstance(t.values[1], "out_fit_range", "FitRange3D")):
                 fail(t, "unsupported conjunction in a range guard")
             pre, t = "PBoth3D", t.values[2]
-        neg, a, op, b = _compare(t, sides)
-        out.append(f"GCmp {pre} {'true' if neg else 'false'} {a} {op} {b}")
+        for neg, a, op, b in _compare(t, sides, env, helpers):
+            out.append(f"GCmp {pre} {'true' if neg else 'false'} {a} {op} {b}")
     if not out:
         fail(fn, f"{fn.name}: no guard found")
     return out
@@ -94,25 +197,31 @@ def _kw_call(node, func_src: str, kws: dict) -> bool:
             and {k.arg: ast.unparse(k.value) for k in node.value.keywords} == kws)
 
 
-def _check_dispatch(fn: ast.FunctionDef):
+def _check_dispatch(fn: ast.FunctionDef) -> bool:
+    """-> target_first: is the target range validated before the two ranges are compared?"""
     if [a.arg for a in fn.args.args] != ["target_fit_range", "out_fit_range", "rows", "cols", "readout_times"]:
         fail(fn, "check_fit_ranges signature")
     b = body_no_doc(fn)
     if len(b) != 3 or not all(isinstance(s, ast.If) for s in b):
         fail(fn, "check_fit_ranges body must be three if statements")
-    s0, s1, s2 = b
+    s0 = b[0]
     if not (ast.unparse(s0.test) == "not target_fit_range" and len(s0.body) == 1 and isinstance(s0.body[0], ast.Return)
             and s0.body[0].value is None and not s0.orelse):
         fail(s0, "expected `if not target_fit_range: return`")
-    if not (ast.unparse(s1.test) == "out_fit_range" and len(s1.body) == 1 and not s1.orelse and _kw_call(
-            s1.body[0], "_check_out_fit_ranges",
-            {"target_fit_range": "target_fit_range", "out_fit_range": "out_fit_range"})):
-        fail(s1, "expected `if out_fit_range: _check_out_fit_ranges(target_fit_range=..., out_fit_range=...)`")
+    target_first = ast.unparse(b[2].test) == "out_fit_range"
+    s1, s2 = (b[2], b[1]) if target_first else (b[1], b[2])
+    same = {"target_fit_range": "target_fit_range", "out_fit_range": "out_fit_range"}
+    sized = dict(same, rows="rows", cols="cols", readout_times="readout_times")
+    if not (ast.unparse(s1.test) == "out_fit_range" and len(s1.body) == 1 and not s1.orelse
+            and (_kw_call(s1.body[0], "_check_out_fit_ranges", same) or _kw_call(s1.body[0], "_check_out_fit_ranges", sized))):
+        fail(s1, "expected `if out_fit_range: _check_out_fit_ranges(target_fit_range=..., out_fit_range=...[, rows=rows, "
+                 "cols=cols, readout_times=readout_times])`")
     if not (_is_isinstance(s2.test, "target_fit_range", "FitRange2D") and len(s2.body) == 1 and len(s2.orelse) == 1
             and _kw_call(s2.body[0], "target_fit_range.check", {"rows": "rows", "cols": "cols"})
             and _kw_call(s2.orelse[0], "target_fit_range.check",
                          {"rows": "rows", "cols": "cols", "readout_times": "readout_times"})):
         fail(s2, "expected the 2D/3D dispatch to target_fit_range.check(...)")
+    return target_first
 
 
 # ------------------------------------------------------------------------------------------ call sites
@@ -313,15 +422,16 @@ def _call_sites(tree) -> tuple[str, str]:
     return out["single"], out["multi"]
 
 
-def render(out_guards, c2, c3, single=None, multi=None) -> str:
+def render(out_guards, c2, c3, single=None, multi=None, target_first=True) -> str:
     def lst(gs):
         return "[ " + ";\n      ".join(gs) + " ]"
     return (HEADER + "From Coq Require Import ZArith List.\nFrom PyxelV Require Import Model.Fitness.\n"
-            "Import ListNotations.\n"
+            "Import ListNotations.\nLocal Open Scope Z_scope.\n"
             "Definition src_checker : checker :=\n"
             f"  {{| out_guards :=\n      {lst(out_guards)};\n"
             f"     check2d :=\n      {lst(c2)};\n"
-            f"     check3d :=\n      {lst(c3)} |}}.\n"
+            f"     check3d :=\n      {lst(c3)};\n"
+            f"     target_first := {'true' if target_first else 'false'} |}}.\n"
             "Definition src_calls : calls :=\n"
             f"  {{| call_single := {single or CALL_SINGLE};\n     call_multi := {multi or CALL_MULTI} |}}.\n")
 
@@ -332,30 +442,43 @@ CALL_MULTI = "{| cs_rows := (QTgt DRow); cs_cols := (QTgt DCol); cs_times := (QT
 
 def translate(repo: Path) -> str:
     tree = parse(repo, REL)
-    _check_dispatch(find_func(tree, "check_fit_ranges"))
+    helpers = _helpers(tree)
+    target_first = _check_dispatch(find_func(tree, "check_fit_ranges"))
     fo = find_func(tree, "_check_out_fit_ranges")
-    if [a.arg for a in fo.args.args] != ["target_fit_range", "out_fit_range"]:
+    params = [a.arg for a in fo.args.args]
+    if params not in (["target_fit_range", "out_fit_range"],
+                      ["target_fit_range", "out_fit_range", "rows", "cols", "readout_times"]):
         fail(fo, "_check_out_fit_ranges signature")
-    og = _guards(fo, {"target_fit_range": "Tgt", "out_fit_range": "Out"}, allow_pre=True)
+    og = _guards(fo, {"target_fit_range": "Tgt", "out_fit_range": "Out"}, allow_pre=True, helpers=helpers)
+    if len(params) == 2 and any("EBound" in g or "ERSt" in g for g in og):
+        fail(fo, "_check_out_fit_ranges uses sizes it does not receive")
     f2 = find_func(tree, "check", cls="FitRange2D")
     if [a.arg for a in f2.args.args] != ["self", "rows", "cols"]:
         fail(f2, "FitRange2D.check signature")
     f3 = find_func(tree, "check", cls="FitRange3D")
     if [a.arg for a in f3.args.args] != ["self", "rows", "cols", "readout_times"]:
         fail(f3, "FitRange3D.check signature")
-    c2 = _guards(f2, {"self": "Tgt"}, allow_pre=False)
-    c3 = _guards(f3, {"self": "Tgt"}, allow_pre=False)
+    c2 = _guards(f2, {"self": "Tgt"}, allow_pre=False, helpers=helpers)
+    c3 = _guards(f3, {"self": "Tgt"}, allow_pre=False, helpers=helpers)
     single, multi = _call_sites(parse(repo, REL_FIT))
-    return render(og, c2, c3, single, multi)
+    return render(og, c2, c3, single, multi, target_first)
 
 
+def _tgt_block(d, b):
+    rs, re_ = f"(ERStart Tgt {d} {b})", f"(ERStop Tgt {d} {b})"
+    return [f"GCmp PAlways true (EConst 0) CLe {rs}", f"GCmp PAlways true {rs} CLe {re_}",
+            f"GCmp PAlways true {re_} CLe (EBound {b})"]
+
+
+def _len_guard(p, d, b):
+    def ln(s):
+        return f"(ESub (ERStop {s} {d} {b}) (ERStart {s} {d} {b}))"
+    return f"GCmp {p} false {ln('Tgt')} CNe {ln('Out')}"
+
+
+# the repaired tree (lengths compared, bounds validated, absent components resolved)
 FALLBACK = render(
-    ["GCmp PBoth3D false (EStop Tgt DTime) CNe (EStop Out DTime)",
-     "GCmp PAlways false (EStop Tgt DRow) CNe (EStop Out DRow)",
-     "GCmp PAlways false (EStop Tgt DCol) CNe (EStop Out DCol)"],
-    ["GCmp PAlways true (EStop Tgt DRow) CLe (EBound BRows)",
-     "GCmp PAlways true (EStop Tgt DCol) CLe (EBound BCols)"],
-    ["GCmp PAlways true (EStop Tgt DRow) CLe (EBound BRows)",
-     "GCmp PAlways true (EStop Tgt DCol) CLe (EBound BCols)",
-     "GNone BTimes",
-     "GCmp PAlways true (EStop Tgt DTime) CLe (EBound BTimes)"])
+    [_len_guard("PBoth3D", "DTime", "BTimes"), _len_guard("PAlways", "DRow", "BRows"), _len_guard("PAlways", "DCol", "BCols")],
+    _tgt_block("DRow", "BRows") + _tgt_block("DCol", "BCols"),
+    _tgt_block("DRow", "BRows") + _tgt_block("DCol", "BCols") + ["GNone BTimes"] + _tgt_block("DTime", "BTimes"),
+    target_first=True)
